@@ -235,7 +235,7 @@ static void w_audit(void)
 {
     int a, k, ab;
     for (a = 0; a < NO; a++) {
-        int b = O[a].buf; const unsigned char *data; size_t idx[4]; int ni = 0;
+        int b = O[a].buf; const unsigned char *data; size_t idx[8]; int ni = 0;
         static void * volatile e;
         MC_CHECK(PC14, cstl_array_size(&A[a]) == O[a].len, "object %d: size() = %zu, reference view has %zu elements", a, cstl_array_size(&A[a]), O[a].len);
         SHIM_CALL(ab, e = cstl_array_data(&A[a]));
@@ -252,6 +252,8 @@ static void w_audit(void)
         if (mc_branch_dead) return;
         if (O[a].len > 0) { idx[ni++] = 0; idx[ni++] = O[a].len - 1; }
         idx[ni++] = O[a].len; idx[ni++] = SIZE_MAX;
+        if (b >= 0 && B[b].sz > 1) idx[ni++] = SIZE_MAX / B[b].sz + 1;                    /* (off+i)*sz would wrap to a small offset */
+        if (O[a].off > 0) idx[ni++] = SIZE_MAX - O[a].off + 1;                            /* off+i would wrap to 0 */
         for (k = 0; k < ni; k++) {
             e = NULL;
             SHIM_CALL(ab, e = cstl_array_at(&A[a], idx[k]));
